@@ -81,7 +81,7 @@ func ruleCmdIdent(c *Ctx) {
 			}
 			nm := fullCalleeName(call)
 			return nm == "strings.ToLower" || nm == "strings.ToUpper"
-		}, isStr)
+		}, isStr, true)
 		cmdTable := map[*ssa.Global]bool{}
 		for name, m := range p.SPkg.Members {
 			g, ok := m.(*ssa.Global)
@@ -722,6 +722,15 @@ func ruleCtorAgree(c *Ctx) {
 					f := fieldOf(fa)
 					have[p.ownerName(f)+"."+f.Name()] = true
 				}
+				// a store through a cursor that holds the address of a link (`link := &l.head; *link = item; link = &item.next`)
+				if _, isPhi := st.Addr.(*ssa.Phi); isPhi {
+					for _, leaf := range phiLeaves(st.Addr, map[ssa.Value]bool{}) {
+						if fa, ok := leaf.(*ssa.FieldAddr); ok {
+							f := fieldOf(fa)
+							have[p.ownerName(f)+"."+f.Name()] = true
+						}
+					}
+				}
 				// a store through the address a helper handed back (`*list.nextSlot(last) = item`): the fields whose
 				// addresses that helper can return
 				if sl, ok := st.Addr.(*ssa.Call); ok {
@@ -862,10 +871,27 @@ func ruleMsetnxPhase(c *Ctx) {
 		var lookups, creates []*ssa.Call
 		for _, in := range instrsOf(fn) {
 			call, ok := in.(*ssa.Call)
-			if !ok || call.Call.StaticCallee() == nil || !blockInCycle(call.Block()) {
+			if !ok || call.Call.StaticCallee() == nil {
 				continue
 			}
 			g := call.Call.StaticCallee()
+			if !blockInCycle(call.Block()) {
+				// a phase moved into a helper that has the loop (`storeStringsUnlocked(keys, values)`, `anyExists(keys)`)
+				if c.InPkg(g) && g.Blocks != nil {
+					for _, in2 := range instrsOf(g) {
+						c2, ok := in2.(*ssa.Call)
+						if !ok || c2.Call.StaticCallee() == nil || !blockInCycle(c2.Block()) {
+							continue
+						}
+						if creator(c2.Call.StaticCallee(), 0) {
+							creates = append(creates, call)
+						} else if lookup(c2.Call.StaticCallee(), 0) {
+							lookups = append(lookups, call)
+						}
+					}
+				}
+				continue
+			}
 			if lookup(g, 0) {
 				lookups = append(lookups, call)
 			}
